@@ -51,12 +51,12 @@ _QUERY_KINDS = {
     4: ("oracle-wf", "option.TrimSpace / ParseInt / ParseBool as observed differ from the modelled parsers (Model.Conv)", True),
 }
 _QUERY_EXPECTED = lambda kind, cid: "Eval vm_compute in (map expected_query (filter (fun c => N.eqb (qid c) %d) qcases))." % cid
-_QUERY_ASSUME = ["column names are resolved to positions by the harness (Header.FieldIndex is not modelled); HAVING, LATERAL, NATURAL/USING, sub-queries inside expressions and recursive CTEs are outside the modelled fragment and never generated"]
+_QUERY_ASSUME = ["column names are resolved to positions by the harness (Header.FieldIndex is not modelled); HAVING, LATERAL, sub-queries inside expressions and recursive CTEs are outside the modelled fragment and never generated; NATURAL/USING are translated by the harness (C03 only)"]
 
 PROPS["C03"] = dict(
     theorem_file="Properties/C03.v", kinds=_QUERY_KINDS, expected=_QUERY_EXPECTED,
     trusted=COMMON_TRUST + [FLOAT_TRUST, ORACLE_TRUST], assumptions=_QUERY_ASSUME,
-    level_text="Proof: Coq theorems (Properties/C03.v) over ALL tables and conditions: WHERE returns exactly the order-preserving sublist of rows whose condition is TRUE (an evaluation error is an error of the whole clause, never a partial result); CROSS/INNER/LEFT/RIGHT/FULL joins of the model equal their list-comprehension definitions, with membership characterisations (pairs with a TRUE condition; each unmatched row exactly once, NULL-padded; nothing else) and compositionality over contiguous ranges of left rows (the goroutine split). The model (Model/Query.v: sources incl. derived tables, joins nested to any depth, WHERE, select list) is tied to the code by running generated queries through parser.Parse + query.Select at cpu 1 and 4 and comparing rows (sequence for single sources, multiset for joins) with eval_query inside Coq. Partial: NATURAL/USING/LATERAL, sub-queries in expressions, recursive CTEs and name resolution are not modelled.",
+    level_text="Proof: Coq theorems (Properties/C03.v) over ALL tables and conditions: WHERE returns exactly the order-preserving sublist of rows whose condition is TRUE (an evaluation error is an error of the whole clause, never a partial result); CROSS/INNER/LEFT/RIGHT/FULL joins of the model equal their list-comprehension definitions, with membership characterisations (pairs with a TRUE condition; each unmatched row exactly once, NULL-padded; nothing else) and compositionality over contiguous ranges of left rows (the goroutine split). The model (Model/Query.v: sources incl. derived tables, joins nested to any depth, WHERE, select list) is tied to the code by running generated queries through parser.Parse + query.Select at cpu 1 and 4 and comparing rows (sequence for single sources, multiset for joins) with eval_query inside Coq. Common table expressions (several references) are expanded to derived tables; USING and NATURAL joins have no construct of their own in the model: the harness spells out their documented meaning (join on the equality of the named columns, one merged column per name taken from the left operand - the right one for RIGHT joins - with the other side's value where that is NULL, then the remaining columns of both sides) as a projection over the modelled join, and the implementation is compared with that. Partial: LATERAL, sub-queries in expressions, recursive CTEs and name resolution are not modelled.",
     level_note="Trusted: Coq kernel + vm_compute; primitive floats; Go harness incl. its resolution of column names to positions; string oracles. Join results are compared as multisets (the property does not fix join order).",
     design_ref="DESIGN.md section 5 (C03)")
 
@@ -76,7 +76,7 @@ PROPS["C07"] = dict(
     theorem_file="Properties/C07.v", kinds=_QUERY_KINDS, expected=_QUERY_EXPECTED,
     trusted=COMMON_TRUST + [FLOAT_TRUST, ORACLE_TRUST, "sort.Sort of the Go standard library sorts correctly for a strict weak order (the implementation's output is checked for inversions on every case, not assumed)"],
     assumptions=_QUERY_ASSUME + ["sort keys are columns holding mutually comparable values (the property's quantifier); under --strict-equal, texts differing only in case are generated never (sort_value_test.go pins Less = FALSE both ways for them, which is not an order; see DESIGN.md)", "float-to-text formatting is not modelled: ordering a non-text float against a text value is outside the fragment"],
-    level_text="Proof: Coq theorems (Properties/C07.v): the reference sort is a permutation of its input for every comparator, and has no inversion wherever the comparator is a strict weak order on the keys at hand; OFFSET n is skipn (max 0 n) with the four frame equations; LIMIT n is firstn (max 0 n); WITH TIES adds exactly the maximal run of following rows whose keys are equivalent to the last kept row's; LIMIT 0 WITH TIES is empty; PERCENT above 100 keeps everything, below 0 nothing, and counts the pre-offset rows. The model (comparator of sort_value.go, LIMIT/OFFSET of view.go after four repairs) is tied to the code by ORDER BY/LIMIT/OFFSET queries whose output is checked in Coq: no inversion under the model comparator, sub-multiset of the input, the model's length, key classes equal position by position. Not proved: that SortValues.Less is a strict weak order on comparable columns (it is a hypothesis of the no-inversion theorem and is exercised by the checker on every case).",
+    level_text="Proof: Coq theorems (Properties/C07.v): the reference sort is a permutation of its input for every comparator, and has no inversion wherever the comparator is a strict weak order on the keys at hand; OFFSET n is skipn (max 0 n) with the four frame equations; LIMIT n is firstn (max 0 n); WITH TIES adds exactly the maximal run of following rows whose keys are equivalent to the last kept row's; LIMIT 0 WITH TIES is empty; PERCENT above 100 keeps everything, below 0 nothing, and counts the pre-offset rows. The model (comparator of sort_value.go, LIMIT/OFFSET of view.go after four repairs) is tied to the code by ORDER BY/LIMIT/OFFSET queries whose output is checked in Coq: no inversion under the model comparator, sub-multiset of the input, the model's length, key classes equal position by position. SortValues.Less IS a strict weak order on comparable key columns - all-integer, all-datetime, all non-numeric text, and numeric columns mixing ANY integers with finite floats (the integer/float comparison is exact after the repair of int-float-beyond-2p53 and is proved to be the order of the real numbers, through Flocq) - with NULLs anywhere, for every list of directions and NULL positions, so ORDER BY over such keys leaves no inversion (hypotheses of the no-inversion theorem discharged). Not covered by a theorem: float keys that are NaN or infinite, boolean-like and mixed-class columns (outside the property's quantifier), and Go's sort.Sort itself.",
     level_note="Trusted: Coq kernel + vm_compute; primitive floats; Go harness; sort.Sort. Known outside-the-property observation: int/float comparison through float64 above 2^53 (F-C07-4) and strict-equal case variants are not generated.",
     design_ref="DESIGN.md section 5 (C07)")
 
@@ -104,6 +104,6 @@ PROPS["C17"] = dict(
     expected=lambda kind, cid: "Eval vm_compute in (map expected_analytic (filter (fun c => N.eqb (aid c) %d) acases))." % cid,
     trusted=COMMON_TRUST + [FLOAT_TRUST, ORACLE_TRUST, "sort.Sort (the ORDER BY of the clause): order-sensitive functions are generated with a unique last key, the rank family with ties"],
     assumptions=_QUERY_ASSUME + ["LISTAGG / JSON_AGG / STDEV / VAR / MEDIAN / user aggregates with OVER are not modelled", "--strict-equal is generated only where no ORDER BY is involved (see C07)"],
-    level_text="Proof: Coq theorems (Properties/C17.v) about the model of Analyze / WindowFrameSet and the analytic functions: rows and other columns are preserved (the output is a permutation of the input rows, each extended by one value); the values of a frame are exactly the partition members at positions max(low,0)..min(high,n-1) in order; ROW_NUMBER is 1..n; FIRST_VALUE / NTH_VALUE return the n-th (non-NULL under IGNORE NULLS) value of the frame or NULL; LAG returns the value offset rows back or the default; windowed aggregates are the aggregate of the frame's values; RANK = 1 + rows before the row's peer group and DENSE_RANK = number of the peer group, over groups of positive sizes that add up to the partition (the same groups CUME_DIST and PERCENT_RANK are computed from; NTILE is modelled and compared but has no closed-form theorem); LAST_VALUE equals the last value of the frame on symmetric frames and the statement for asymmetric frames is refuted (known finding F-C17-1). The model is tied to the code by one analytic function per query over tables with ties, NULLs, single-row and many partitions (200-400 rows with cpu 4), all ROWS frame shapes, compared per row (unique id column) inside Coq.",
+    level_text="Proof: Coq theorems (Properties/C17.v) about the model of Analyze / WindowFrameSet and the analytic functions: rows and other columns are preserved (the output is a permutation of the input rows, each extended by one value); the values of a frame are exactly the partition members at positions max(low,0)..min(high,n-1) in order; ROW_NUMBER is 1..n; FIRST_VALUE / NTH_VALUE return the n-th (non-NULL under IGNORE NULLS) value of the frame or NULL; LAG returns the value offset rows back or the default; windowed aggregates are the aggregate of the frame's values; RANK = 1 + rows before the row's peer group and DENSE_RANK = number of the peer group, over groups of positive sizes that add up to the partition (the same groups CUME_DIST and PERCENT_RANK are computed from); NTILE(n) in closed form for every partition size and n >= 1: the first rows mod n tiles hold rows/n + 1 rows, the others rows/n, sizes adding up to the partition; LAST_VALUE equals the last value of the frame on symmetric frames and the statement for asymmetric frames is refuted (known finding F-C17-1). The model is tied to the code by one analytic function per query over tables with ties, NULLs, single-row and many partitions (200-400 rows with cpu 4), all ROWS frame shapes, compared per row (unique id column) inside Coq.",
     level_note="Trusted: Coq kernel + vm_compute; primitive floats; Go harness; sort.Sort. Partial: RANK / DENSE_RANK / CUME_DIST / PERCENT_RANK / NTILE are covered by model + correspondence, their closed forms are not proved.",
     design_ref="DESIGN.md section 5 (C17)")
